@@ -200,14 +200,14 @@ class C17(Check):
     def impl_view_for_spec(self, case, ia):
         if ia[0] != "Ok":
             return ia
-        tagged = sorted([n, d] for d, ls in ia[1] for n in ls)
+        tagged = [[n, d] for d, ls in ia[1] for n in ls]      # in node order: the theorem states list equality
         return ["Ok", tagged, ia[2]]
 
     def spec(self, case, ans):
         if ans is None or isinstance(ans, str):
             return None
         wf, lines, wfx = ans[1]
-        tagged = sorted([n, d] for n, d in lines)
+        tagged = [[n, d] for n, d in lines]                    # in physical line order
         if not wf and wfx:
             # well formed except for backslashes inside character literals: the class of the known finding
             self._wfx_only.add(self.key(case))
